@@ -389,8 +389,8 @@ pub fn run(eng: &Engine) {
         eng.report_violation("predefined_tables", &json!(null), &f);
         return;
     }
-    let n1 = eng.tier.pick(200_000, 4_000_000);
-    let n2 = eng.tier.pick(150_000, 3_000_000);
+    let n1 = eng.tier.pick(300_000, 4_000_000);
+    let n2 = eng.tier.pick(250_000, 3_000_000);
     eng.run_stage("decoder_distributions", n1, dist_strategy, check_dist);
     eng.run_stage("encoder_histograms", n2, hist_strategy, check_hist);
     let fam = small_family();
